@@ -594,6 +594,50 @@ def run(chk, prog):
     chk.check(grids == {"grid_t1"}, "R6", site6, "file, fields and wake map all describe grid_t1 (%s)" % sorted(str(g_) for g_ in grids), "main:record-grid:%s" % sorted(str(g_) for g_ in grids))
     for key_ in list(mm.eff.memo):
         chk.functions.add(key_[0])
+    # ---- R7: relations between sibling unit factors (values, not only dimensions; both sides read off the code) ---------------------------
+    # one record-time unit divided by the steps per unit is one step; turns = seconds * f_rev; seconds = metres / c; coulombs * f_rev = amperes;
+    # volts per turn * fraction of a turn per step = energy-cell size in eV; watts = watts-per-hertz * hertz-scale of the field's frequency axis
+    from .. import indexmap as I2
+    from . import gridmodel as G2
+    sm7 = I2.scan(mainf)
+    loc7 = {d["name"]: sm7.tr.env.get(k) for k, d in sm7.locals.items()}
+    hnew = [A.strip(t["init"], casts=False) for t in A.walk(mainf["body"]) if t["k"] == "CXXNewExpr" and (t.get("alloc_type") or "").endswith("HDF5File")]
+    A.require(len(hnew) == 1, "main: construction of the results file not found")
+    hargs = {n_: sm7._try(a_) for n_, a_ in zip(hnew[0].get("callee_params", []), hnew[0]["args"])}
+    site7 = A.loc(mainf, hnew[0])
+
+    def same(a_, b_):
+        return a_ is not None and b_ is not None and sp.simplify(a_ - b_) == 0
+    chk.check(same(hargs.get("t_sync") / loc7["steps"] if hargs.get("t_sync") is not None and loc7.get("steps") is not None else None, loc7.get("dt")), "R7", site7,
+              "the time unit of the records (\"Second\" of the time axis, %s) divided by the steps per unit is the step dt (%s)" % (hargs.get("t_sync"), loc7.get("dt")),
+              "units:time-unit-vs-dt")
+    chk.check(same(hargs.get("f_rev"), loc7.get("f_rev")), "R7", site7, "the file converts seconds to turns with the revolution frequency of the run (%s)" % hargs.get("f_rev"), "units:f_rev")
+    chk.check(same(loc7.get("Qb") * loc7.get("f_rev") if loc7.get("Qb") is not None and loc7.get("f_rev") is not None else None, loc7.get("Ib")), "R7", site7,
+              "bunch charge times revolution frequency is the beam current (\"Coulomb\" vs \"Ampere\": %s)" % loc7.get("Qb"), "units:charge-vs-current")
+    hcs = I2.scan(hc, hooks=[G2.make_hook()])
+    hv = {a_.base: a_.value for a_ in hcs.accesses if a_.kind == "store" and a_.idx is None and a_.value is not None}
+    sec = [v_ for k_, v_ in hv.items() if "physcons_c" in str(v_)]
+    okm = False
+    if len(sec) == 1:
+        m_ = sp.simplify(sec[0] * sp.Symbol("physcons_c", real=True))
+        for t_ in [m_] + [hv.get(str(m_))]:
+            if t_ is not None and str(t_) == "AX0_scale_Meter":
+                okm = True
+    chk.check(okm, "R7", hc.where, "\"Second\" of the position axis times c is its \"Meter\" scale (%s)" % (sec[0] if sec else None), "units:seconds-vs-metres")
+    trn = [v_ for v_ in hv.values() if {str(t_) for t_ in v_.free_symbols} == {"f_rev", "t_sync"}]
+    chk.check(len(trn) == 1 and same(trn[0], sp.Symbol("f_rev", real=True) * sp.Symbol("t_sync", real=True)), "R7", hc.where,
+              "\"Turn\" of the time axis = \"Second\" * f_rev (%s)" % (trn[0] if trn else None), "units:turns-vs-seconds")
+    ec8 = [c_ for c_ in prog.fns("vfps::ElectricField::ElectricField") if len(c_["params"]) == 8]
+    A.require(len(ec8) == 1, "ElectricField base constructor not found")
+    ev7 = {a_.base: a_.value for a_ in I2.scan(ec8[0], hooks=[G2.make_hook()]).accesses if a_.kind == "store" and a_.idx is None and a_.value is not None}
+    want_v = sp.Symbol("AX1_delta", real=True) * sp.Symbol("AX1_scale_ElectronVolt", positive=True)
+    chk.check(ev7.get("volts") is not None and same(ev7["volts"] * sp.Symbol("revolutionpart", real=True), want_v) or
+              (ev7.get("volts") is not None and sp.simplify(ev7["volts"] * sp.Symbol("revolutionpart", real=True) / G2.AX(1, "delta")).free_symbols <= {sp.Symbol("AX1_scale_ElectronVolt", positive=True)}),
+              "R7", ec8[0].where, "\"Volt\" (per turn) times the fraction of a turn per step is one energy cell in eV (%s)" % ev7.get("volts"), "units:volts-per-turn")
+    fw, fwh = ev7.get("factor4Watts"), ev7.get("factor4WattPerHertz")
+    okw = fw is not None and fwh is not None and any(str(t_) == "factor4WattPerHertz" for t_ in fw.free_symbols) and \
+        "Hertz" in str(sp.simplify(fw / sp.Symbol("factor4WattPerHertz", real=True))) and "_axis_freq" in str(fw)
+    chk.check(okw, "R7", ec8[0].where, "\"Watt\" = \"WattPerHertz\" * Hertz scale of the field's own frequency axis (%s)" % fw, "units:watts-vs-watts-per-hertz")
     # ---- RD: dimensional consistency of the quantities this property depends on (sa/dims.py) ----------------------------------------
     from . import dimrules
     nrd = dimrules.run(chk, prog, "RD")
